@@ -291,6 +291,13 @@ def rule_C01(c):
             c.check(ok, "C01.R1", "bls_verify/map_to_G1-checked", c.pos(g, n), "hash-to-curve result is checked before the pairing",
                     "map_to_G1's result is not checked before the pairing (a wrong-length hash would leave the hash point uninitialised)")
     rule_pairing_core(c, "C01.R1")
+    # R7: identity / equality predicates of the glue inspect whole objects (the identity flag and the zero-key test rest on them)
+    c.floor("C01.R7", 20)
+    rule_object_extents(c, "C01.R7")
+    # R6: the signature reader is canonical (one accepted string per point): same rules as C05.R1/R2 on E1_read_bytes
+    c.floor("C01.R6", 10)
+    rule_reader_coverage(c, "C01.R6", (("E1_read_bytes", 48),))
+    rule_reader_header(c, "C01.R6", (("E1_read_bytes", 48, "Fp_read_bytes", "Fp_sqrt_montg", 48),))
 
 
 def rule_pairing_core(c, rule):
@@ -1016,13 +1023,11 @@ def rule_vector_loop(c, rule, key_elem, key_stride=None):
         c.check(stride_ok, rule, key_stride, c.p.pos(g.f), "elements are 96 bytes apart", "element stride is not G2_SER_BYTES: " + why)
 
 
-def rule_C05(c):
-    c.floor("C05.R1", 4)
-    c.floor("C05.R2", 20)
-    c.floor("C05.R3", 2)
+def rule_reader_coverage(c, rule, readers):
+    """every accepting path of a point reader inspects every input byte (shape rule, see DESIGN C05.R1)"""
     # ---- R1 byte coverage of the infinity branch in the point readers
-    for fn, N in (("E1_read_bytes", 48), ("E2_read_bytes", 96)):
-        g = c.cfg("C05.R1", fn)
+    for fn, N in readers:
+        g = c.cfg(rule, fn)
         if not g:
             continue
         a, inb, inl = [p["name"] for p in c.p.params(fn)]
@@ -1036,7 +1041,7 @@ def rule_C05(c):
             covered = set()
             how = []
             if "%s == %d" % (inl, N) not in facts:
-                c.viol("C05.R1", "%s/accept:%s/length" % (fn, "infinity" if inf_branch else "point"), c.pos(g, n), "acceptance without the length being fixed to %d" % N, facts)
+                c.viol(rule, "%s/accept:%s/length" % (fn, "infinity" if inf_branch else "point"), c.pos(g, n), "acceptance without the length being fixed to %d" % N, facts)
                 continue
             cov, hw = coverage_at(c, g, n, inb, c.p.enums)
             covered |= cov
@@ -1073,8 +1078,183 @@ def rule_C05(c):
                     how.append("helper %s" % hn)
             missing = sorted(set(range(N)) - covered)
             key = "%s/accept:%s/byte-coverage" % (fn, "infinity" if inf_branch else "point")
-            c.check(not missing, "C05.R1", key, c.pos(g, n), "every input byte is inspected before acceptance (%s)" % ", ".join(how),
+            c.check(not missing, rule, key, c.pos(g, n), "every input byte is inspected before acceptance (%s)" % ", ".join(how),
                     "accepted without reading input byte(s) %s: two byte strings differing there decode to the same object and cannot both re-encode to themselves" % (missing if len(missing) < 6 else "%s..%s" % (missing[0], missing[-1])), facts)
+
+
+def rule_reader_header(c, rule, readers):
+    """header checks, x read checked, on-curve via sqrt, sign selection dominate acceptance in the point readers"""
+    # point readers: header checks, x read checked, on-curve via sqrt, sign selection
+    for fn, N, fpread, sqrt, xlen in readers:
+        g = c.cfg(rule, fn)
+        if not g:
+            continue
+        a, inb, inl = [p["name"] for p in c.p.params(fn)]
+        for n in g.nodes:
+            if g.valid_accept_facts(n) is None:
+                continue
+            facts = g.valid_accept_facts(n)
+            # the infinity branch is the one that set the output to infinity (whatever the flag test looks like)
+            inf_branch = any(callee_name(cl) in ("E1_set_infty", "E2_set_infty") and g.dominates(m_, n) for m_, cl in g.calls())
+            br = "infinity" if inf_branch else "point"
+            need = ["%s == %d" % (inl, N), "((%s[0] >> 7) == 1) == 1" % inb]
+            if inf_branch:
+                need.append("(%s[0] & 63) == 0" % inb)
+            else:
+                need.append("(%s[0] & 64) == 0" % inb)
+                need.append("%s(" % fpread)
+                need.append("%s(" % sqrt)
+            for nd in need:
+                if nd.endswith("("):
+                    if nd.startswith(fpread):
+                        okk = any(f.startswith(nd) and f.endswith("== VALID") for f in facts)
+                    else:
+                        okk = any(f.startswith(nd) and f.endswith("!= 0") for f in facts)
+                elif nd == "(%s[0] & 64) == 0" % inb:
+                    # bit 6 clear, however the bit test is written
+                    okk = any(f in (nd, "((%s[0] >> 6) & 1) == 0" % inb, "(%s[0] & 64) != 64" % inb) for f in facts)
+                else:
+                    okk = nd in facts or any(norm_eq(f, nd) for f in facts)
+                c.check(okk, rule, "%s/accept:%s/%s" % (fn, br, nd), c.pos(g, n), "validation step dominates acceptance", "%s accepts (%s branch) without `%s…` being established" % (fn, br, nd), facts)
+        ev = path_events(g, g.nodes)
+        # header bits are cleared on the copy that is range-checked; sign bit taken from bit 5 and applied
+        c.check("temp[0] &= 31" in " ".join(compound_events(g)) , rule, fn + "/mask-header", c.p.pos(g.f), "header bits masked before the coordinate is range-checked", "header bits are not masked (31) on the coordinate copy")
+        c.check(any(e.startswith("y_sign = ((%s[0] >> 5) & 1)" % inb) for e in ev), rule, fn + "/sign-bit", c.p.pos(g.f), "sign bit is bit 5 of the first byte", "sign bit is not read from bit 5 of the header byte")
+
+
+# ---------------------------------------------------------------------------------------------------
+# object extents in the glue: byte counts handed to BLST's vec_* helpers / memcpy / memset
+
+SIZED_CALLS = {  # callee -> (indices of object pointer operands, index of the byte count, kind)
+    "vec_is_zero": ((0,), 1, "pred"), "vec_is_equal": ((0, 1), 2, "pred"),
+    "vec_copy": ((0, 1), 2, "copy"), "vec_zero": ((0,), 1, "copy"),
+    "memcpy": ((0, 1), 2, "copy"), "memset": ((0,), 2, "copy"),
+}
+SCALAR_POINTEES = {"void", "byte", "unsigned char", "char", "uint8_t", "limb_t", "unsigned long", "unsigned long long", "uint64_t", "int", "bool", "_Bool"}
+
+
+def _type_of(e):
+    t = (e.get("type") or {})
+    return t.get("desugaredQualType") or t.get("qualType")
+
+
+def _sizeof_types(repo, flagset, types):
+    """sizeof of each C type string, evaluated by clang on a probe appended to the glue's main unit"""
+    import tempfile
+    types = sorted(set(types))
+    if not types:
+        return {}
+    with tempfile.TemporaryDirectory(prefix="verif_sz_") as d:
+        probe = os.path.join(d, "probe.c")
+        with open(probe, "w") as f:
+            f.write('#include "%s"\n' % os.path.join(repo, "bls12381_utils.c"))
+            for i, t in enumerate(types):
+                f.write("typedef __typeof__(%s) vszq_t%d; char (*vszq_%d)[sizeof(vszq_t%d)];\n" % (t, i, i, i) if "[" not in t and "(" not in t else
+                        "char (*vszq_%d)[sizeof(%s)];\n" % (i, t))
+        cmd = ["clang-14", "-fsyntax-only", "-Xclang", "-ast-dump", "-Xclang", "-ast-dump-filter=vszq_"] + cast.cflags(repo, flagset) + ["-w", probe]
+        r = subprocess.run(cmd, stdout=subprocess.PIPE, stderr=subprocess.PIPE, text=True)
+        out = {}
+        for m in re.finditer(r"VarDecl .* vszq_(\d+) 'char \(\*\)\[(\d+)\]'", r.stdout):
+            out[types[int(m.group(1))]] = int(m.group(2))
+        return out
+
+
+def rule_object_extents(c, rule, only=None):
+    """Every call of a sized primitive on an object of the glue (Fr, Fp, E1, … located by the pointee type of the
+    operand, never by name) covers the object: a predicate (is-zero, is-equal) must inspect exactly sizeof(object)
+    bytes of each operand — fewer and distinct objects compare equal / non-zero scalars count as zero; a copy or
+    fill must not exceed sizeof(object). `only`: restrict to these glue functions (and report their count)."""
+    sites = []
+    need = set()
+    for fname, fd in sorted(c.p.funcs.items()):
+        if only is not None and fname not in only:
+            continue
+        for e in walk(fd):
+            if e.get("kind") != "CallExpr":
+                continue
+            cn = callee_name(e)
+            if cn not in SIZED_CALLS:
+                continue
+            args = [a for a in e["inner"][1:]]
+            ops, ni, kind = SIZED_CALLS[cn]
+            if ni >= len(args):
+                continue
+            objs = []
+            for oi in ops:
+                a = strip(args[oi])
+                if a.get("kind") == "BinaryOperator":
+                    continue   # base + offset: a sub-range, not a whole object
+                if a.get("kind") == "UnaryOperator" and a.get("opcode") == "&":
+                    inner = strip(a["inner"][0])
+                    t = _type_of(inner)
+                    if t:
+                        objs.append((oi, t))
+                    continue
+                t = _type_of(a)
+                if not t:
+                    continue
+                if t.endswith("*"):
+                    pt = t[:-1].strip()
+                    pt = re.sub(r"^const\s+|\s+const$", "", pt).strip()
+                    if pt in SCALAR_POINTEES or pt.endswith("*"):
+                        continue
+                    objs.append((oi, pt))
+                elif "[" in t:
+                    objs.append((oi, t))   # an array object (decays at the call)
+            for w_ in walk(args[ni]):
+                if w_.get("kind") == "UnaryExprOrTypeTraitExpr" and w_.get("name") == "sizeof":
+                    at = (w_.get("argType") or {}).get("desugaredQualType") or (w_.get("argType") or {}).get("qualType")
+                    if not at:
+                        inner = [x for x in w_.get("inner", []) if isinstance(x, dict)]
+                        at = _type_of(strip(inner[0])) if inner else None
+                    if at:
+                        need.add(at)
+            for _, t in objs:
+                need.add(t)
+            sites.append((fname, e, cn, kind, objs, args[ni]))
+    table = _sizeof_types(c.p.repo, c.p.flagset, [re.sub(r"^const\s+", "", t) for t in need])
+
+    def hook(node):
+        at = (node.get("argType") or {}).get("desugaredQualType") or (node.get("argType") or {}).get("qualType")
+        if not at:
+            inner = [x for x in node.get("inner", []) if isinstance(x, dict)]
+            at = _type_of(strip(inner[0])) if inner else None
+        return table.get(re.sub(r"^const\s+", "", at)) if at else None
+
+    seen = {}
+    for fname, e, cn, kind, objs, nexpr in sites:
+        cast.SIZEOF_HOOK = hook
+        try:
+            n = const_eval(nexpr, c.p.enums)
+        finally:
+            cast.SIZEOF_HOOK = None
+        where = "%s:%s" % (c.p.where.get(fname, "?"), e.get("_line"))
+        for oi, t in objs:
+            sz = table.get(re.sub(r"^const\s+", "", t))
+            key = "%s/%s/arg%d:%s" % (fname, cn, oi, t.replace(" ", ""))
+            seen[key] = seen.get(key, 0) + 1
+            if seen[key] > 1:
+                key += "#%d" % seen[key]
+            if n is None or sz is None:
+                c.info(rule, key, where, "byte count or object size is not a compile-time constant here (count=%s, sizeof=%s): not judged" % (n, sz))
+                continue
+            if kind == "pred":
+                c.check(n == sz, rule, key, where, "%s inspects all %d bytes of the %s object" % (cn, sz, t),
+                        "%s inspects %d of the %d bytes of a `%s` object: objects that differ only in the remaining bytes are not told apart (a scalar with zero low limbs counts as zero, distinct points compare equal)" % (cn, n, sz, t))
+            else:
+                c.check(n <= sz, rule, key, where, "%s touches %d ≤ %d bytes of the %s object" % (cn, n, sz, t),
+                        "%s touches %d bytes of a `%s` object of %d bytes: out-of-bounds access" % (cn, n, t, sz))
+
+
+
+
+def rule_C05(c):
+    c.floor("C05.R6", 20)
+    rule_object_extents(c, "C05.R6")
+    c.floor("C05.R1", 4)
+    c.floor("C05.R2", 20)
+    c.floor("C05.R3", 2)
+    rule_reader_coverage(c, "C05.R1", (("E1_read_bytes", 48), ("E2_read_bytes", 96)))
     # ---- R2 validation dominates acceptance in the scalar/field readers
     table = {
         "Fr_read_bytes": ["{len} == 32", "re:check_mod_256\\((\\w+), BLS12_381_r\\) != 0"],
@@ -1122,42 +1302,7 @@ def rule_C05(c):
         a, inb, inl = [p["name"] for p in c.p.params("Fp_read_bytes")]
         ev = path_events(g, g.nodes)
         c.check("limbs_from_be_bytes(%s, %s, 48)" % (a, inb) in ev, "C05.R2", "Fp_read_bytes/full-width", c.p.pos(g.f), "all 48 bytes imported", "field element is not imported from all 48 input bytes")
-    # point readers: header checks, x read checked, on-curve via sqrt, sign selection
-    for fn, N, fpread, sqrt, xlen in (("E1_read_bytes", 48, "Fp_read_bytes", "Fp_sqrt_montg", 48), ("E2_read_bytes", 96, "Fp2_read_bytes", "Fp2_sqrt_montg", 96)):
-        g = c.cfg("C05.R2", fn)
-        if not g:
-            continue
-        a, inb, inl = [p["name"] for p in c.p.params(fn)]
-        for n in g.nodes:
-            if g.valid_accept_facts(n) is None:
-                continue
-            facts = g.valid_accept_facts(n)
-            # the infinity branch is the one that set the output to infinity (whatever the flag test looks like)
-            inf_branch = any(callee_name(cl) in ("E1_set_infty", "E2_set_infty") and g.dominates(m_, n) for m_, cl in g.calls())
-            br = "infinity" if inf_branch else "point"
-            need = ["%s == %d" % (inl, N), "((%s[0] >> 7) == 1) == 1" % inb]
-            if inf_branch:
-                need.append("(%s[0] & 63) == 0" % inb)
-            else:
-                need.append("(%s[0] & 64) == 0" % inb)
-                need.append("%s(" % fpread)
-                need.append("%s(" % sqrt)
-            for nd in need:
-                if nd.endswith("("):
-                    if nd.startswith(fpread):
-                        okk = any(f.startswith(nd) and f.endswith("== VALID") for f in facts)
-                    else:
-                        okk = any(f.startswith(nd) and f.endswith("!= 0") for f in facts)
-                elif nd == "(%s[0] & 64) == 0" % inb:
-                    # bit 6 clear, however the bit test is written
-                    okk = any(f in (nd, "((%s[0] >> 6) & 1) == 0" % inb, "(%s[0] & 64) != 64" % inb) for f in facts)
-                else:
-                    okk = nd in facts or any(norm_eq(f, nd) for f in facts)
-                c.check(okk, "C05.R2", "%s/accept:%s/%s" % (fn, br, nd), c.pos(g, n), "validation step dominates acceptance", "%s accepts (%s branch) without `%s…` being established" % (fn, br, nd), facts)
-        ev = path_events(g, g.nodes)
-        # header bits are cleared on the copy that is range-checked; sign bit taken from bit 5 and applied
-        c.check("temp[0] &= 31" in " ".join(compound_events(g)) , "C05.R2", fn + "/mask-header", c.p.pos(g.f), "header bits masked before the coordinate is range-checked", "header bits are not masked (31) on the coordinate copy")
-        c.check(any(e.startswith("y_sign = ((%s[0] >> 5) & 1)" % inb) for e in ev), "C05.R2", fn + "/sign-bit", c.p.pos(g.f), "sign bit is bit 5 of the first byte", "sign bit is not read from bit 5 of the header byte")
+    rule_reader_header(c, "C05.R2", (("E1_read_bytes", 48, "Fp_read_bytes", "Fp_sqrt_montg", 48), ("E2_read_bytes", 96, "Fp2_read_bytes", "Fp2_sqrt_montg", 96)))
     # G2 vector reader
     g = c.cfg("C05.R2", "G2_vector_read_bytes")
     if g:
@@ -1468,6 +1613,8 @@ def rule_table(c, rule):
 
 
 def rule_C09(c):
+    c.floor("C09.R9", 20)
+    rule_object_extents(c, "C09.R9")
     c.floor("C09.R6", 6)
     # readers compare their length parameter before touching the buffer
     for fn, N in (("Fr_read_bytes", 32), ("Fp_read_bytes", 48), ("E1_read_bytes", 48), ("E2_read_bytes", 96), ("Fp2_read_bytes", 96), ("map_to_G1", 128)):
@@ -1594,5 +1741,11 @@ def rule_C20(c):
     c.check(not bad, "C20.R2", "cgo-directives", "bls12381_utils.go", "C flag selection depends on GOARCH only", "cgo CFLAGS are conditioned on something other than GOARCH: %s" % bad)
 
 
-RULES = {"C01": rule_C01, "C02": rule_C02, "C03": rule_C03, "C04": rule_C04, "C05": rule_C05, "C06": rule_C06,
+def rule_C12(c):
+    # the non-zero test of the key-generation retry (and every other object predicate of the glue) covers the object
+    c.floor("C12.R5", 20)
+    rule_object_extents(c, "C12.R5")
+
+
+RULES = {"C12": rule_C12, "C01": rule_C01, "C02": rule_C02, "C03": rule_C03, "C04": rule_C04, "C05": rule_C05, "C06": rule_C06,
          "C07": rule_C07, "C09": rule_C09, "C17": rule_C17, "C19": rule_C19, "C20": rule_C20}
